@@ -127,7 +127,8 @@ def run_session(prop, run_seed, profile, monitors, ops=None, known=None, own_tre
             res.log.append(jdump({
                 "step": step, "op": op, "labels": labels,
                 "outcome": [outcome[0], outcome[1]] if outcome[0] == "exc" else ["ret", outcome[1]],
-                "state": seeds.H("snap", jdump(post)) if post is not None else "corrupt"}))
+                "state": seeds.H("snap", jdump(post).replace(env.sandbox, "$SANDBOX"))
+                if post is not None else "corrupt"}))
             if guard is not None and not own_tree:
                 # C03's to report, not ours: abandon, the steps before are already judged
                 res.stats["abandoned_corrupt_universe"] += 1
